@@ -32,3 +32,19 @@ package executor
 //@   callsite Executor.startRemoteRequest: assert nStart == old(nStart) && dyntype(result.Err) == typetag("graphsync.RemoteMissingBlockErr")
 //@   loop 1 invariant nStart == old(nStart) + ite(requestSent, 1, 0)
 //@   ensures nStart <= old(nStart) + 1
+
+//@ -- ============================ C06: pausing ============================
+//@ -- pause requests pending on a request's pause channel (one token per PauseRequest of the API or of a hook action
+//@ -- that the manager forwarded); a receive takes one, the default case of a select is taken only when there is none
+//@ ghost pauseTokens map[ref]int
+//@ onsend recv:struct{}(ch, v): assume pauseTokens[ch] > 0 ; pauseTokens := upd(pauseTokens, ch, pauseTokens[ch] - 1)
+//@ onsend default:struct{}(ch, v): assume pauseTokens[ch] == 0
+//@ -- a pause request that has arrived is consumed by the block it arrives at, and stops the traversal there - whatever
+//@ -- the block hooks did (a hook that paused or failed must not leave the token behind: it would pause the request
+//@ -- again right after the resume)
+//@ func Executor.processResult
+//@   lenient
+//@   safety off
+//@   modifies alloc, pauseTokens
+//@   ensures old(pauseTokens[rt.PauseMessages]) > 0 ==> result != nil && pauseTokens[rt.PauseMessages] == old(pauseTokens[rt.PauseMessages]) - 1
+//@   ensures old(pauseTokens[rt.PauseMessages]) == 0 ==> pauseTokens == old(pauseTokens)
